@@ -10,6 +10,7 @@ CONSTANTS
   Callers = {"c1", "c2"}
   Outcomes = {"ok", "fail", "cancel"}
   SplitAcquire = TRUE
+  SplitTransition = TRUE
   Defects = {"StaleHalfOpen"}
   MaxNow = 5
   MaxCount = 2
